@@ -440,6 +440,26 @@ def run(repo, rep, tier):
             r7.ob(ok, f"get_hist_bin: {c.name}(quantity={quant_p})")
             if not ok:
                 rep.finding("R14.7", ghb, n, f"`{norm(n)[:70]}` is not given the axis' quantity `{quant_p}`", stmt=f"{c.name} without quantity")
+    # ---------------- R14.8 the timestamp converter yields integers on every path
+    # process_features applies to_ns element-wise; the quantity registered for datetime64 (only_int) keeps integer columns only, so
+    # a single float among the results (pandas then makes the whole column float64) sends every row of the column to nanflow
+    r8 = rep.rule("R14.8", "to_ns returns an integer on every path (missing timestamps included)", floor=3)
+    fu = repo.modules.get(DF + ".filling_utils") or next((m0 for m0 in repo.modules.values() if m0.name.endswith("filling_utils")), None)
+    tn = fu.functions.get("to_ns") if fu is not None else None
+    if tn is None:
+        raise AnalysisError("filling_utils.to_ns not found")
+    rep.analysed_functions.add(tn.construct)
+    for n in walk_local_stmt(tn.node):
+        if isinstance(n, ast.Return):
+            v = n.value
+            ok = (isinstance(v, ast.Constant) and type(v.value) is int) or (isinstance(v, ast.Attribute) and v.attr == "value") or (
+                isinstance(v, ast.Call) and isinstance(v.func, ast.Name) and v.func.id == "int")
+            r8.ob(ok, f"to_ns: `{norm(n)[:50]}`")
+            if not ok:
+                rep.finding("R14.8", tn, n, f"`{norm(n)[:60]}` makes to_ns return a non-integer for some timestamps: applied element-wise, one such value "
+                            f"turns the whole converted column into float64, which the integer-only quantity used for timestamp columns rejects - "
+                            f"every row of the column (valid timestamps included) lands in nanflow, and a chunk without such a value is filled "
+                            f"normally, so chunk histograms no longer add up", stmt=f"to_ns returns {ast.unparse(v)[:30] if v is not None else 'None'}")
     # ---------------- R14.4
     fh = pd_m.functions.get("_fill_histogram")
     if fh is None:
